@@ -70,9 +70,14 @@ class PO:
         # enabledness of executed blocking operations
         for t, ops in self.tr.items():
             for o in ops:
-                if o['kind'] in BLOCKING:
+                if self.is_blocking(o):
                     en = self.enabled(o, at=self.o(o))
                     c.append(z3.Implies(self.ex(o), en))
+
+    @staticmethod
+    def is_blocking(o):
+        """operations whose execution needs a condition on the others: the blocking kinds, and put on a bounded queue"""
+        return o['kind'] in BLOCKING or (o['kind'] == 'q_put' and o.get('maxsize'))
 
     def _distinct(self, ops):
         for i in range(len(ops)):
@@ -106,6 +111,12 @@ class PO:
         if kind == 'q_get':
             p = self._kth('q_put', o['obj'], o['k'])
             return before(p) if p is not None else z3.BoolVal(False)
+        if kind == 'q_put':
+            # bounded queue: the k-th put needs the (k - maxsize)-th get to have happened
+            if o['k'] < o['maxsize']:
+                return z3.BoolVal(True)
+            g = self._kth('q_get', o['obj'], o['k'] - o['maxsize'])
+            return before(g) if g is not None else z3.BoolVal(False)
         if kind == 'recv':
             if o.get('eof'):
                 cl = self.by_obj.get(('close', o['obj']), [])
@@ -164,9 +175,18 @@ class PO:
         ops = self.tr[t]
         alts = [self.P[t] == len(ops)]
         for o in ops:
-            if o['kind'] in BLOCKING:
+            if self.is_blocking(o) and not o.get('nonblock'):       # a non-blocking operation never parks its thread
                 alts.append(z3.And(self.P[t] == o['pos'], z3.Not(self.enabled(o, at=None))))
         return z3.Or(alts)
+
+    def nonblocking_ops(self):
+        return [o for ops in self.tr.values() for o in ops if o.get('nonblock')]
+
+    def nonblock_fail_query(self):
+        """some thread is about to run a get_nowait / timed get (put on a full bounded queue) that finds the queue empty
+        (full) in the state reached by the executed prefix: the real call raises and the thread leaves its recorded path"""
+        alts = [z3.And(self.P[o['thread']] == o['pos'], z3.Not(self.enabled(o, at=None))) for o in self.nonblocking_ops()]
+        return [z3.Or(alts) if alts else z3.BoolVal(False)]
 
     def deadlock_query(self):
         q = [self.stuck_or_done(t) for t in self.tr]
